@@ -61,7 +61,7 @@ func VerifH_C32_read_handshake_arbitrary_stream() {
 	c32SendAlertStubs()
 	max := 11
 	if vr.Tier() == 1 {
-		max = 16
+		max = 13 // 16 exceeds 200000 paths
 	}
 	stream := vr.Bytes("stream", vr.Int("n", 0, max))
 	c32BoundRecordLength(stream)
@@ -91,7 +91,7 @@ func VerifH_C32_read_record_protected() {
 	s := c25Make(class)
 	max := 12
 	if vr.Tier() == 1 {
-		max = 30
+		max = 16 // 30 exceeds 200000 paths
 	}
 	stream := vr.Bytes("stream", vr.Int("n", 0, max))
 	c32BoundRecordLength(stream)
